@@ -85,7 +85,9 @@ func TestC14(t *testing.T) {
 		NoCounts:     true,
 		// C13's finding about keyless tables with case-insensitive columns makes edits hit the
 		// wrong row; nothing C14 states depends on it
-		SkipFlags: map[string]bool{tmodel.FlagKeylessCI: true},
+		// likewise C13's finding about rows updated through ON DUPLICATE KEY UPDATE on keyless tables
+		// (stored rows overwrite each other later on)
+		SkipFlags: map[string]bool{tmodel.FlagKeylessCI: true, tmodel.FlagOdkuKeyless: true},
 	}
 	if kf.Listed(idRowKey) {
 		st.Excluded(idRowKey + ":colliding-domain")
